@@ -3,6 +3,7 @@ package main
 import (
 	"fmt"
 	"go/ast"
+	"go/printer"
 	"go/types"
 	"sort"
 	"strings"
@@ -299,4 +300,68 @@ func (r *Run) frameLayoutResync() {
 	}
 	r.frameObl("interp.Interpreter.gta/import:frame-layout-resynchronised", "on every path where importSrc succeeded (named, dot and blank imports alike) the importer's frame layout is re-synchronised before it allocates further global slots", ok, "first statement of the success branch: "+got)
 	r.FuncsUC = append(r.FuncsUC, "interp.Interpreter.gta (import of a source package)")
+}
+
+// opTables: the operator admissibility tables of typecheck.go, entry by entry, against the Go
+// specification's operand requirements (Arithmetic operators: + on numbers and strings; - * / on numbers;
+// % & | ^ &^ on integers; && || ! on booleans; unary + - on numbers, ^ on integers).
+func (r *Run) opTables() {
+	p := r.L.ByName["interp"]
+	if p == nil {
+		return
+	}
+	norm := func(s string) string { return strings.Join(strings.Fields(s), " ") }
+	numOrStr := "func(typ reflect.Type) bool { return isNumber(typ) || isString(typ) }"
+	want := map[string]map[string]string{
+		"binaryOpPredicates": {"aAdd": numOrStr, "aSub": "isNumber", "aMul": "isNumber", "aQuo": "isNumber", "aRem": "isInt",
+			"aAnd": "isInt", "aOr": "isInt", "aXor": "isInt", "aAndNot": "isInt", "aLand": "isBoolean", "aLor": "isBoolean"},
+		"unaryOpPredicates": {"aInc": "isNumber", "aDec": "isNumber", "aPos": "isNumber", "aNeg": "isNumber", "aBitNot": "isInt", "aNot": "isBoolean"},
+	}
+	for _, f := range p.Syntax {
+		for _, d := range f.Decls {
+			gd, ok := d.(*ast.GenDecl)
+			if !ok {
+				continue
+			}
+			for _, sp := range gd.Specs {
+				vs, ok := sp.(*ast.ValueSpec)
+				if !ok || len(vs.Names) != 1 || len(vs.Values) != 1 {
+					continue
+				}
+				exp := want[vs.Names[0].Name]
+				cl, ok := vs.Values[0].(*ast.CompositeLit)
+				if exp == nil || !ok {
+					continue
+				}
+				tab := vs.Names[0].Name
+				seen := map[string]bool{}
+				for _, el := range cl.Elts {
+					kv, ok := el.(*ast.KeyValueExpr)
+					if !ok {
+						continue
+					}
+					k := types.ExprString(kv.Key)
+					var buf strings.Builder
+					printer.Fprint(&buf, r.L.Fset, kv.Value)
+					got := norm(buf.String())
+					seen[k] = true
+					w, known := exp[k]
+					if !known {
+						r.ground("interp."+tab+"/only-spec-operators["+k+"]", "the table admits only the operators of the Go specification", false, tab+" has an entry for "+k+": "+got)
+						continue
+					}
+					r.ground("interp."+tab+"/admits["+k+"]", "operator "+k+" is defined exactly on: "+w, got == norm(w), tab+"["+k+"] is "+got)
+				}
+				var missing []string
+				for k := range exp {
+					if !seen[k] {
+						missing = append(missing, k)
+					}
+				}
+				sort.Strings(missing)
+				r.ground("interp."+tab+"/complete", "every operator of the Go specification has an entry", len(missing) == 0, "missing: "+strings.Join(missing, ", "))
+				r.FuncsUC = append(r.FuncsUC, "interp."+tab+" (table)")
+			}
+		}
+	}
 }
